@@ -421,6 +421,10 @@ pub fn minimise(pool: &Pool, known: &[Known], first: &Value, max_evals: u64) -> 
     let mut cur = first.clone();
     let mut evals = 0u64;
     let batch = (pool.workers * 2).max(4);
+    // minimisation is a service, not part of the verdict: it also stops on a wall-clock budget (changed code can
+    // make every evaluation slow), the smallest case found so far is reported
+    let started = std::time::Instant::now();
+    let max_wall = std::time::Duration::from_secs(if max_evals > 1000 { 900 } else { 120 });
     'outer: loop {
         let cands: Vec<Value> = pool.prop.shrink(&cur["case"]);
         if cands.is_empty() {
@@ -428,7 +432,7 @@ pub fn minimise(pool: &Pool, known: &[Known], first: &Value, max_evals: u64) -> 
         }
         let mut idx = 0;
         while idx < cands.len() {
-            if evals >= max_evals {
+            if evals >= max_evals || started.elapsed() > max_wall {
                 break 'outer;
             }
             let end = (idx + batch).min(cands.len());
